@@ -11,6 +11,7 @@ CONSTANTS
   MaxReorgs = 0
   MaxIdx = 0
   MaxFails = 0
+  InitDuties = FALSE
   Weaken = "narrowWindow"
 INVARIANT AtMostOnce
 INVARIANT AtItsSlot
